@@ -44,6 +44,8 @@ CONTRACT = [
     ("SidecarValidator._check_for_key", ["data"], "a nested sidecar value"),
     ("Sidecar.load_sidecar_files", [("call", "load_sidecar_file")], "the decoded top-level document"),
     ("BidsSidecarFile.is_hed", ["json_dict", ("values-of", "json_dict")], "the merged document / a column entry"),
+    ("SidecarValidator._validate_refs", [("values-of-call", "get_hed_strings", "_get_unvalidated_data")],
+     "an entry of the column's not-type-validated strings (a JSON null arrives as NaN, not as text)"),
 ]
 
 
@@ -103,7 +105,8 @@ def run(ctx):
     for fname, exprs, what in CONTRACT:
         f = prog.find_function(fname)
         ns, nu = check_type_guards(ctx, "R8.1", f, exprs, what)
-        if ns == 0:
+        if ns == 0 and not any(isinstance(e, tuple) and e[0] == "values-of-call" for e in exprs):
+            # (the values-of-call row is conditional: reading the type-validated view instead needs no guard)
             raise AnalysisError("R8.1 contract: none of %s occurs in %s any more" % (exprs, fname))
         total_uses += nu
     ctx.floor("R8.1", "type-specific uses of JSON-typed values", total_uses, 7)
